@@ -1298,7 +1298,9 @@ br_ssl_engine_current_state(const br_ssl_engine_context *cc)
 void
 br_ssl_engine_flush(br_ssl_engine_context *cc, int force)
 {
-	if (!br_ssl_engine_closed(cc) && (cc->application_data & 1) != 0) {
+	if (!br_ssl_engine_closed(cc) && (cc->application_data & 1) != 0
+		&& cc->iomode != BR_IO_IN)
+	{
 		sendpld_flush(cc, force);
 	}
 }
